@@ -21,16 +21,12 @@ import (
 	"fmt"
 )
 
-func vC05Base(a Amf0) *objectBase {
-	switch x := a.(type) {
-	case *Object:
-		return &x.objectBase
-	case *EcmaArray:
-		return &x.objectBase
-	case *StrictArray:
-		return &x.objectBase
+// the container as something one can Get from (nil for scalars)
+func vC05Base(a Amf0) vC05Getter {
+	if a == nil || !vC05IsContainer(a) {
+		return nil
 	}
-	return nil
+	return a.(vC05Getter)
 }
 
 func vC05NewKind(kind int) Amf0 {
@@ -179,7 +175,8 @@ func vC05RunHist(ops vSx) (obs vSx, fl *vC05Fail, nontrivial bool, rejected int)
 					o = vL(vZ(-1))
 					return
 				}
-				ob := vC05Base(vC05LibAt(root, op.l[1].l))
+				tgtc := vC05LibAt(root, op.l[1].l)
+				ob := vC05Base(tgtc)
 				sh := vC05ShadowAt(shadow, path)
 				if ob == nil {
 					o = vL(vZ(1))
@@ -188,7 +185,7 @@ func vC05RunHist(ops vSx) (obs vSx, fl *vC05Fail, nontrivial bool, rejected int)
 					}
 					return
 				}
-				ob.Set(string(op.l[2].b), vC05Build(n, true))
+				vC05Set(tgtc, string(op.l[2].b), vC05Build(n, true))
 				o = vOk()
 				if sh == nil || !sh.isContainer() {
 					bad("history", step+"Get reached a container the contract does not have")
@@ -337,14 +334,8 @@ func vC05RunHist(ops vSx) (obs vSx, fl *vC05Fail, nontrivial bool, rejected int)
 					o = vL(vZ(1))
 					return
 				}
-				var cnt uint32
-				switch x := tgt.(type) {
-				case *EcmaArray:
-					cnt = x.count
-				case *StrictArray:
-					cnt = x.count
-				}
-				o = vOk(vI(int(tgt.amf0Marker())), vU(uint64(cnt)), vI(len(ob.properties)))
+				keys, _, _ := vC05Props(tgt)
+				o = vOk(vI(vC05Dump(tgt).kind), vU(uint64(vC05CountField(tgt))), vI(len(keys)))
 			default:
 				o = vL(vZ(-1))
 			}
